@@ -15,7 +15,7 @@ def normalise(path):
     changed = True
     while changed:
         changed = False
-        for pre in ("package.loaded.", "_G."):
+        for pre in ("package.loaded.", "_G.", "@loadenv."):
             if p.startswith(pre):
                 p = p[len(pre):]
                 changed = True
@@ -31,16 +31,20 @@ def parse_probe(msg, mode):
         i, rest = tok.split("=", 1)
         t, path = rest.split(":", 1)
         np = normalise(path)
+        if np == "@loadenv":
+            np = ""
         top = "_G" if np == "" else np.split(".")[0].split("@mt")[0] or "_G"
         if np.startswith("@stringmt"):
             top = "@stringmt"
         nodes.append({"id": int(i), "t": t, "top": top, "path": path})
     glob = []
+    # global tables: the script's own (_G, node 1) and the one a load-compiled chunk runs in
+    gtabs = {1} | {n["id"] for n in nodes if n["path"] == "@loadenv"}
     for tok in parts[2][2:].split(" "):
         c, rest = tok.split("<", 1)
         p, k = rest.split(":", 1)
         edges.append({"c": int(c), "p": int(p), "k": k})
-        if int(p) == 1 and k != "@mt":
+        if int(p) in gtabs and k != "@mt":
             glob.append(k)
     for tok in parts[3][2:].split(" "):
         k, v = tok.split("=")
